@@ -69,6 +69,11 @@ def impl_run(case):
     std = None
     if case['lmin'] <= case['lmax']:
         cs2 = CombiScheme(case['dim'])
+        # earlier requests on the same (non-initialised) object must not influence later ones
+        r2 = random.Random(case['seed'] + 1)
+        for _ in range(r2.choice([0, 1, 2])):
+            l0 = max(0, case['lmin'] + r2.choice([-1, 1, 2]))
+            cs2.getCombiScheme(lmin=l0, lmax=l0 + max(0, case['lmax'] - case['lmin'] + r2.choice([0, 0, 1])), do_print=False)
         std = sorted([[int(x) for x in g.levelvector], sx.rat(g.coefficient)]
                      for g in cs2.getCombiScheme(lmin=case['lmin'], lmax=case['lmax'], do_print=False))
     return dict(ops=out_ops, states=states, std=std)
